@@ -60,6 +60,7 @@ type Pipe struct {
 	unblock   chan struct{}
 	wsignal   chan struct{}
 	BlockedIn int32 // number of Write calls currently blocked
+	slowClose int64
 }
 
 // NewPipe allocates a Pipe.
@@ -96,9 +97,15 @@ func (p *Pipe) Read(b []byte) (int, error) {
 		}
 		return n, nil
 	case <-p.closed:
+		if d := time.Duration(atomic.LoadInt64(&p.slowClose)); d > 0 {
+			time.Sleep(d) // a transport whose blocked Read is released late
+		}
 		return 0, io.ErrClosedPipe
 	}
 }
+
+// SlowClose makes a Read that is blocked when the pipe is closed return only d later.
+func (p *Pipe) SlowClose(d time.Duration) { atomic.StoreInt64(&p.slowClose, int64(d)) }
 
 // BlockWrites makes Write calls block until UnblockWrites or Close.
 func (p *Pipe) BlockWrites() {
@@ -374,16 +381,24 @@ func DecodeWire(writes [][]byte, drw *dialect.ReadWriter) ([]frame.Frame, error)
 	return out, nil
 }
 
+// LeaksAfter reports the goroutines that still run gomavlib code once the grace period is over
+// (one look, no polling).
+func LeaksAfter(grace time.Duration) string {
+	time.Sleep(grace)
+	return leaks(time.Now())
+}
+
 // Leaks reports goroutines that still run gomavlib code (polls up to 3 s for them to exit).
-func Leaks() string {
-	deadline := time.Now().Add(3 * time.Second)
+func Leaks() string { return leaks(time.Now().Add(3 * time.Second)) }
+
+func leaks(deadline time.Time) string {
 	for {
 		buf := make([]byte, 1<<20)
 		n := runtime.Stack(buf, true)
 		var bad []string
 		for _, g := range strings.Split(string(buf[:n]), "\n\n") {
 			if (strings.Contains(g, "bluenviron/gomavlib/v3.") || strings.Contains(g, "gomavlib/v3/pkg/") ||
-				strings.Contains(g, "pion/transport")) && !strings.Contains(g, "verifharness/scn.Leaks") {
+				strings.Contains(g, "pion/transport")) && !strings.Contains(g, "verifharness/scn.leaks") {
 				first := strings.SplitN(g, "\n", 2)[0]
 				fn := ""
 				for _, l := range strings.Split(g, "\n") {
